@@ -215,7 +215,9 @@ def oracle_cases(ctx, corr):
     cases = list(getattr(corr, '_cases', sc.CORPUS))
     # a timed-out search followed by another search on the same finder (satisfiable and unsatisfiable classes)
     again = [dict(c, timeout_first=True) for c in (sc.CORPUS[4], sc.CORPUS[6], sc.CORPUS[0])]
-    return again + cases
+    # function models whose callable returns the ints 0 / 1 (equal to False / True)
+    ints = [dict(c, model='pyint') for c in sc.CORPUS[:8]]
+    return again + ints + cases
 
 
 def oracle(case):
